@@ -379,7 +379,7 @@ package align
 // 3n / n and the names "<name>_<frame>" depend on fmt.Sprintf producing names that are new to the bag (Sprintf is not
 // modelled) and are NOT COVERED.
 //@ func (*seqbag).Translate
-//@   props C05
+//@   props C05 C01
 //@   requires wf(sb) && (phase == -1 || (0 <= phase && phase <= 2))
 //@   ensures !validcode(geneticcode) || old(sb.alphabet) != NUCLEOTIDS ==> err != nil && sameslice(sb.seqs, old(sb.seqs)) && sb.seqmap == old(sb.seqmap)
 //@   ensures wf(sb) && nrows(sb) <= (phase == -1 ? 3 : 1) * old(nrows(sb))
